@@ -459,7 +459,18 @@ let bf a =
     List.map (fun t -> match split_on '^' t with
       | [r; l] -> (z_of_dec l, rec_of r) | _ -> failwith "rec^rlen") (split_on '@' a.(8)) in
   match wres (bcf_write_file h rs) with
-  | Some bs, wh -> Some (wh ^ "|" ^ read_obs bs)
+  | Some bs, wh ->
+      (* NV.Bcf.FileBytes.written_class: the writer's input predicate file_bytes_ok (sites-only
+         records whose strings are bytes; compared with the shape of the implementation's records)
+         and the bytes of the stream the model writes (written_class_sound) *)
+      let (fb, o) = written_class h rs in
+      let wb = (match o with Some true -> "ok" | Some false -> if fb then "BytesViolated" else "NotBytes" | None -> "-") in
+      (* NV.Bcf.FileBytesFmt.written_class_all: the predicate with the per-sample values; every
+         input of the implementation is bytes by type, so it must hold on every case *)
+      let (fa, oa) = written_class_all h rs in
+      let wa = (match oa with Some true -> "ok" | Some false -> if fa then "BytesViolated" else "NotBytes" | None -> "-") in
+      Some (wh ^ "|" ^ read_obs bs ^ "|WB=" ^ (if fb then "1" else "0") ^ ";" ^ wb
+            ^ ";ALL=" ^ (if fa then "1" else "0") ^ ";" ^ wa)
   | None, wh -> Some (wh ^ "|-")
 
 let handle kind a =
